@@ -240,10 +240,19 @@ def job(j, seed):
         done = 0
         okp = C.TRUE
         once = True
+        double_rounded, rounding_known = [], True
         while done < N:
             rec = c.take('array')
             sa = rec.value
             once = once and rec.meta == 'float32' and sa.dtype == 'float32'
+            # exactly one float32 rounding per value: the conversion to the declared unit happens in the (float64) dtype of the
+            # input, the store into the float32 buffer is the only narrowing; a float32 operation before the store rounds twice
+            for i_row, nm in enumerate(names):
+                sdt, srnd = getattr(sa, 'src', {}).get(i_row, (None, None))
+                if sdt is None or srnd is None:
+                    rounding_known = False
+                elif sdt != 'float64' or srnd[1] != 0:
+                    double_rounded.append(f'{nm}: dtype {sdt} with {srnd[1]} float32 operation(s) before the float32 store')
             n = sa.nrows
             if not n.is_const():
                 raise C.Unsupported('symbolic chunk rows in C13')
@@ -261,6 +270,12 @@ def job(j, seed):
                 break
         chk(f'{P}:all {N} pixels, in order, each row converted to its declared unit', okp & C.B.const(done == N), p.pc, 'C13:pixels')
         chk(f'{P}:pixels rounded once to float32', C.B.const(bool(once) or N == 0), p.pc, 'C13:pix-dtype')
+        if N > 0:
+            if not rounding_known:
+                obs.append({'name': f'{tag}:{P}:rounding history of the pixel columns', 'status': 'inconclusive', 'detail': 'values assigned to the buffer carry no rounding record', 't': 0})
+            else:
+                chk(f'{P}:float64 inputs are converted in float64 and narrowed exactly once (no float32 operation before the store)' + (': ' + '; '.join(double_rounded[:2]) if double_rounded else ''),
+                    C.B.const(not double_rounded), p.pc, 'C13:pix-rounding')
         # ---------------- pixel metadata
         pm = dec[("pix", "metadata")][0]
         chk(f'{P}:pix metadata npix = N', R.lift(pm['npix']['f64'][0]) == N, p.pc, 'C13:pix-meta')
@@ -412,6 +427,8 @@ def replay_real(case):
     from . import c12_sqw_structure as c12
 
     N, chunk = max(1, case['N']), case['chunk']
+    if case.get('signature', '').startswith('C13:pix-rounding'):
+        N = max(N, 257)  # an off-by-one-ulp double rounding hits about a quarter of the values: use enough pixels
     rng = np.random.default_rng(0)
     n_runs = 2
     au = case['angle_unit']
